@@ -139,10 +139,22 @@ CHECKS["C16"] = ("proof",
     "byte/integer accessors of attrs.py (ClaimReference, Source hashes, Fee units, Location) and URL.parse / __str__ / parts over the "
     "pattern built by the running _create_url_regex(): every URL generated from the grammar (48 shapes, arbitrary names/ids/sequence "
     "numbers) parses to its parts and prints back; every string outside the grammar raises ValueError. Bounded (labelled): the four claim "
-    "types through update()/setters with real protobuf, all language tags, legacy encodings. Known findings F11, F16.2, F16.3, F16.4.",
+    "types through update()/setters with real protobuf, all language tags, legacy encodings. Findings F11, F16.2, F16.3, F16.4 were repaired by fix: commits.",
     "protobuf wire format is an uninterpreted function with inverse (fakes via model_for); regex capture semantics modelled with "
     "solver-checked disjointness/unique-split obligations; attrs plumbing beyond the listed accessors is bounded only.",
     "symbolic execution of the real AST, sre-parsed real URL pattern to z3 regex, VCs by z3/cvc5; bounded real-protobuf round trips", "3 C16")
+CHECKS["C10"] = ("proof",
+    "Deductive on the real BlobServerProtocol.handle_request / data_received and BlobExchangeClientProtocol.data_received / _write / "
+    "_download_blob (asyncio model, json uninterpreted on arbitrary text): blob bytes leave only for a verified blob, right after the one "
+    "header naming exactly blob.blob_hash and blob.length; oversized or malformed requests close; the client writer never receives more "
+    "than length - received bytes; for EVERY re-chunking of the header either everything is still buffered or the recognised response is "
+    "the '}'-terminated prefix and exactly the following bytes (capped) reach the writer; a response never names another blob; "
+    "_download_blob succeeds only if hash, length, availability and price checks passed and closes on every failure. Bounded (labelled): "
+    "real client+server+BlobFile over an in-memory re-chunking wire: 130 honest, 116 lying-server, 132 lying-client cases. Known findings "
+    "C10-F1, C10-F2.",
+    "json.loads on arbitrary text is an uninterpreted function into a shape catalogue; time-out clauses and 'keeps serving others' are "
+    "bounded only; the writer's behaviour is C01's contract; asyncio closes a transport whose protocol raises (trusted).",
+    "symbolic execution of the real AST with an asyncio/transport model, VCs by z3/cvc5; bounded transfers over a re-chunking wire", "3 C10")
 CHECKS["C13"] = ("proof",
     "Deductive on the real Account/Wallet/WalletStorage code with fully symbolic strings: encrypt then decrypt with the same password "
     "restores seed/keys; a wrong password or any tampered stored state that does not decrypt leaves the account unchanged; every "
